@@ -274,11 +274,17 @@ fn one_matrix_scaled(names: &[String], cells: &[f64], ultrametric: bool, q: &mut
     if let Err(e) = &real {
         if e == "panic" {
             rep.oracle("no-panic", "upgma", &req, "panic");
-        } else if n >= 2 {
+        } else if n >= 2 && int_cells.iter().all(|v| *v >= 0.0) {
             rep.oracle("shape", "refused", &req, e);
         }
     }
-    if let Ok(t) = &real {
+    // matrices with negative entries are outside the property's domain: the model mirrors the code there too (that is where the
+    // clamp of the repaired crate acts), so they are compared with the model, but the property's oracles do not apply
+    let in_domain = int_cells.iter().all(|v| *v >= 0.0);
+    if !in_domain {
+        rep.count("matrices_with_negative_entries_model_only");
+    }
+    if let (Ok(t), true) = (&real, in_domain) {
         // ---- oracles on the real result ----
         let mut bad = None;
         SCALE.with(|s| s.set(scale));
@@ -505,6 +511,12 @@ pub fn run(thorough: bool, seed: u64, driver: &str, rep: &mut Report) {
                             let ultra = i % 3 == 0;
                             let cells: Vec<f64> = if ultra { ultrametric(&mut rng, n) } else if i % 3 == 1 { (0..tri(n)).map(|_| rng.range(1, 1_000_000) as f64).collect() } else { (0..tri(n)).map(|_| rng.range(0, 6) as f64).collect() };
                             one_matrix_scaled(&names, &cells, ultra, &mut q, rep, "scaled", scale_exp);
+                            continue;
+                        }
+                        // a few negative entries (outside the domain; model only): the clamp at zero is part of the transcription
+                        if i % 12 == 6 {
+                            let cells: Vec<f64> = (0..tri(n)).map(|_| if rng.chance(1, 5) { -(rng.range(1, 9) as f64) } else { rng.range(0, 12) as f64 }).collect();
+                            one_matrix_scaled(&names, &cells, false, &mut q, rep, "negative-entries", 0);
                             continue;
                         }
                         // decimal distances with many ties (tenths): every average is rounded
